@@ -704,7 +704,8 @@ type wrapped struct {
 	LineShift int
 	ColShift  int
 	Desc      string
-	Direct    []directRule // rules that are direct items of wrapper sequences, outermost frame first
+	Direct    []directRule // rules the wrapper itself contributes BEFORE the rules of the wrapped list, outermost frame first
+	After     []directRule // rules the wrapper contributes AFTER them (a `groups:` key written after the wrapping key), innermost frame first
 }
 
 // directRule: a complete recording rule placed by a "mixed sequence" wrapper frame next to the item that wraps the body.
@@ -730,9 +731,9 @@ func (g *docGen) wrapOpts(list []string, levels int, allowDocs bool) wrapped {
 		pre, post []string
 	}
 	lineShift := 0
-	var direct []directRule
+	var direct, after []directRule
 	for lv := 0; lv < levels; lv++ {
-		switch g.r.Intn(5) {
+		switch g.r.Intn(6) {
 		case 0, 1: // mapping key
 			key := pick(g.r, []string{"spec", "data", "foo", "rules", "alerts", "items", "x-y", "prometheus_rules"})
 			var pre, post []string
@@ -823,6 +824,42 @@ func (g *docGen) wrapOpts(list []string, levels int, allowDocs bool) wrapped {
 			direct = append(frame, direct...)
 			desc = append(desc, "mixedseq:"+key)
 			g.note("wrapper:mixed-sequence")
+		case 5: // a mapping with BOTH a `groups:` key that yields a group and a sibling key that holds the body, in either key order
+			g.anchor++
+			key := pick(g.r, []string{"extra", "more_rules", "spec", "zz"})
+			gname := fmt.Sprintf("wg%d", g.anchor)
+			grp := []string{"groups:", "  - name: " + gname}
+			withRule := g.chance(0.7)
+			if withRule {
+				grp = append(grp, "    rules:", "      - record: "+gname+":r", "        expr: vector(3)")
+			} else {
+				grp = append(grp, "    rules: []")
+			}
+			var nb []string
+			if g.chance(0.5) {
+				// groups first, the body under a LATER sibling key
+				nb = append(nb, grp...)
+				nb = append(nb, key+":")
+				before := len(nb)
+				if withRule {
+					direct = append([]directRule{{Name: gname + ":r", Expr: "vector(3)", RelLine: 3 - (lineShift + before), RelCol: 6 - (col + 2)}}, direct...)
+				}
+				nb = append(nb, indentLines(body, 2)...)
+				lineShift += before
+				desc = append(desc, "groups-then:"+key)
+			} else {
+				nb = append(nb, key+":")
+				nb = append(nb, indentLines(body, 2)...)
+				if withRule {
+					after = append(after, directRule{Name: gname + ":r", Expr: "vector(3)", RelLine: 1 + len(body) + 3 - (lineShift + 1), RelCol: 6 - (col + 2)})
+				}
+				nb = append(nb, grp...)
+				lineShift += 1
+				desc = append(desc, key+"-then-groups")
+			}
+			col += 2
+			body = nb
+			g.note("wrapper:groups-sibling")
 		}
 	}
 	// extra documents
@@ -845,7 +882,7 @@ func (g *docGen) wrapOpts(list []string, levels int, allowDocs bool) wrapped {
 	for _, p := range post {
 		all = append(all, strings.Split(p, "\n")...)
 	}
-	return wrapped{Text: strings.Join(all, "\n") + "\n", LineShift: lineShift, ColShift: col, Desc: strings.Join(desc, ","), Direct: direct}
+	return wrapped{Text: strings.Join(all, "\n") + "\n", LineShift: lineShift, ColShift: col, Desc: strings.Join(desc, ","), Direct: direct, After: after}
 }
 
 // embedded places a whole YAML text inside a scalar of an outer document (YAML in YAML, e.g. a ConfigMap).
